@@ -494,7 +494,7 @@ func HarnessNEStep() {
 	}
 	st := d.State()
 	verifrt.Assert(st.Octave == wantOct && st.Semitone == wantSemi, "C04: octave/semitone move by exactly one, pair resets to 0, nothing else changes them")
-	verifrt.Assert(st.Channel == wantCh && st.Channel <= 15, "C04: channel saturates within 1-16, pair resets to 1")
+	verifrt.Assert(st.Channel == wantCh && st.Channel <= 15, "C04/C05: channel saturates within 1-16, pair resets to 1")
 	verifrt.Assert(d.mapping == wantMap && d.mapping >= 0 && d.mapping < c.M, "C04: mapping saturates within the list, pair resets to the first")
 	verifrt.Assert(d.ccLearning == wantLearn, "C07: cc_learning is on exactly while its key is held")
 
